@@ -432,6 +432,27 @@ func runC10(r *core.Run) {
 		}
 		r.Sample(map[string]interface{}{"scenario": sc.Name, "sql": sc.SQL, "crash_points": len(ids), "first_points": ids[:minInt(8, len(ids))]})
 	}
+	// ---- generated scenarios (thorough): several tables in several formats, statement mixes, commits anywhere ----
+	if r.Thorough {
+		nsc := 500
+		for k := 0; k < nsc; k++ {
+			sc := randomCrashScenario(r, k)
+			n, sig, what, at := crashRandom(r, sc)
+			total += n
+			r.Count("generated_scenarios", 1)
+			r.Count("generated_crash_points", n)
+			if sig == "INFRA" {
+				core.Fail("%s", what)
+			}
+			if sig != "" {
+				r.Violation(sig, what, map[string]interface{}{"scenario": sc.Name, "tables": sc.Tables, "sql": sc.SQL, "crash_at": at})
+			}
+			if k < 2 {
+				r.Sample(map[string]interface{}{"scenario": sc.Name, "tables": sc.Tables, "sql": sc.SQL, "crash_points": n})
+			}
+		}
+	}
+
 	// every crashed execution must be a behaviour of FileProtocol ending in Crash(p1), with Durable & co. holding
 	res := r.RunTLC(core.TLCOpts{Module: "FileProtocolTrace", Cfg: "FileProtocolTrace.cfg", Workers: 1,
 		Texts: map[string]string{"trace.ndjson": strings.Join(traceLines, "\n") + "\n"}, Timeout: 10 * time.Minute, KeepOut: true})
@@ -442,7 +463,6 @@ func runC10(r *core.Run) {
 			// an invariant (Durable, CrashLeavesOldOrNew ...) fails on a recorded crashed execution
 			r.Violation("crash:model-invariant:"+res.Violated, "invariant "+res.Violated+" of FileProtocol fails on a recorded crashed execution", map[string]interface{}{"line": res.Depth})
 		} else {
-			_ = os.WriteFile("/tmp/c10trace.ndjson", []byte(strings.Join(traceLines, "\n")+"\n"), 0644)
 			r.Coverage["model_drift"] = fmt.Sprintf("strict trace validation stopped at line %d of %d", res.Depth-1, len(traceLines))
 			fmt.Printf("NOTE property=C10 model drift: strict trace validation stopped at line %d of %d: %s\n", res.Depth-1, len(traceLines), safeLine(traceLines, res.Depth-1))
 		}
@@ -450,7 +470,7 @@ func runC10(r *core.Run) {
 	r.Coverage["evaluations"] = total
 	r.Coverage["distinct_nontrivial"] = r.DistinctCount()
 	r.Coverage["rule"] = "one execution of the real binary per (scenario, hook point id point@table#occurrence) recorded by an uncrashed reference run, from the first statement to process exit (encode.row thinned to 3 + every 97th); the process SIGKILLs itself at the point; non-trivial = distinct (scenario, point id)"
-	r.Coverage["exhaustive"] = true
+	r.Coverage["exhaustive"] = !r.Thorough // thorough adds generated scenarios (a sample); the hook points of every scenario are enumerated completely
 }
 
 func safeLine(l []string, i int) string {
@@ -506,4 +526,232 @@ func dirProjection2(snap map[string]string, files []string, versions map[string]
 		m[f] = d
 	}
 	return m
+}
+
+
+// ---------------------------------------------------------------------------
+// generated crash scenarios
+// ---------------------------------------------------------------------------
+
+// tableText renders rows (first row = header) in the format the extension selects.
+func tableText(ext string, rows [][]string) string {
+	var b strings.Builder
+	switch ext {
+	case "csv", "tsv":
+		d := ","
+		if ext == "tsv" {
+			d = "\t"
+		}
+		for _, r := range rows {
+			b.WriteString(strings.Join(r, d))
+			b.WriteByte('\n')
+		}
+	case "ltsv":
+		for _, r := range rows[1:] {
+			for j, c := range r {
+				if j > 0 {
+					b.WriteByte('\t')
+				}
+				b.WriteString(rows[0][j] + ":" + c)
+			}
+			b.WriteByte('\n')
+		}
+	case "json", "jsonl":
+		if ext == "json" {
+			b.WriteString("[")
+		}
+		for i, r := range rows[1:] {
+			if i > 0 && ext == "json" {
+				b.WriteString(",")
+			}
+			b.WriteString("{")
+			for j, c := range r {
+				if j > 0 {
+					b.WriteString(",")
+				}
+				fmt.Fprintf(&b, "%q:%q", rows[0][j], c)
+			}
+			b.WriteString("}")
+			if ext == "jsonl" {
+				b.WriteByte('\n')
+			}
+		}
+		if ext == "json" {
+			b.WriteString("]\n")
+		}
+	}
+	return b.String()
+}
+
+func randomCrashScenario(r *core.Run, k int) binScenario {
+	rng := r.Rand
+	exts := []string{"csv", "csv", "tsv", "json", "jsonl", "ltsv"}
+	nt := 1 + rng.Intn(3)
+	sc := binScenario{Name: fmt.Sprintf("gen%d", k), Tables: map[string]string{}}
+	var names []string
+	nrows := map[string]int{}
+	for i := 1; i <= nt; i++ {
+		ext := exts[rng.Intn(len(exts))]
+		n := fmt.Sprintf("g%d.%s", i, ext)
+		rows := [][]string{{"id", "v", "w"}}
+		nr := []int{1, 2, 3, 5, 9, 40, 200}[rng.Intn(7)]
+		for x := 1; x <= nr; x++ {
+			rows = append(rows, []string{fmt.Sprint(x), strings.Repeat(string(rune('a'+rng.Intn(26))), 1+rng.Intn(12)), fmt.Sprint(rng.Intn(1000))})
+		}
+		sc.Tables[n] = tableText(ext, rows)
+		names = append(names, n)
+		nrows[n] = nr
+	}
+	var sql strings.Builder
+	nst := 2 + rng.Intn(6)
+	created := false
+	sinceCommit := 0
+	for i := 0; i < nst; i++ {
+		t := names[rng.Intn(len(names))]
+		switch rng.Intn(9) {
+		case 0, 1:
+			fmt.Fprintf(&sql, "UPDATE `%s` SET v = '%s' WHERE id %% %d = 0;\n", t, strings.Repeat("z", 1+rng.Intn(20)), 1+rng.Intn(3))
+		case 2:
+			fmt.Fprintf(&sql, "UPDATE `%s` SET w = w + 1;\n", t)
+		case 3:
+			fmt.Fprintf(&sql, "DELETE FROM `%s` WHERE id > %d;\n", t, 1+rng.Intn(nrows[t]))
+		case 4, 5:
+			fmt.Fprintf(&sql, "INSERT INTO `%s` VALUES (%d, '%s', %d);\n", t, 1000+i, strings.Repeat("q", 1+rng.Intn(30)), rng.Intn(9))
+		case 6:
+			if strings.HasSuffix(t, ".csv") || strings.HasSuffix(t, ".tsv") {
+				fmt.Fprintf(&sql, "ALTER TABLE `%s` SET LINE_BREAK TO CRLF;\n", t)
+			} else {
+				fmt.Fprintf(&sql, "UPDATE `%s` SET v = v || 'x';\n", t)
+			}
+		case 7:
+			if !created {
+				created = true
+				sql.WriteString("CREATE TABLE `made.csv` (a, b);\nINSERT INTO `made.csv` VALUES (1, 'x'), (2, 'y');\n")
+			} else {
+				sql.WriteString("INSERT INTO `made.csv` VALUES (3, 'z');\n")
+			}
+		case 8:
+			if sinceCommit > 0 {
+				if rng.Intn(3) == 0 {
+					sql.WriteString("ROLLBACK;\n")
+					created = false
+					sql.WriteString("SELECT 1;\n")
+				} else {
+					sql.WriteString("COMMIT;\n")
+				}
+				sinceCommit = -1
+			}
+		}
+		sinceCommit++
+	}
+	if rng.Intn(3) > 0 {
+		sql.WriteString("COMMIT;\n") // otherwise the procedure ends normally: auto-commit
+	}
+	sc.SQL = sql.String()
+	return sc
+}
+
+// crashRandom: reference run and runs of the prefixes up to each COMMIT give the committed versions of every
+// table; then one run per hook point with the process killing itself there.  Returns the number of crash
+// points and the first violation (sig, what, point id).
+func crashRandom(r *core.Run, sc binScenario) (int, string, string, string) {
+	dir, res, points := runScenario(r, sc, nil, true)
+	_ = os.RemoveAll(dir)
+	if res.Exit != 0 || res.IsFatal() {
+		return 0, "INFRA", fmt.Sprintf("reference run of generated scenario failed: exit=%d %s\n%s", res.Exit, res.Stderr, sc.SQL), ""
+	}
+	allowed := map[string]map[string]bool{}
+	for n, c := range sc.Tables {
+		allowed[n] = map[string]bool{c: true}
+	}
+	// committed states: after every prefix that ends with COMMIT, and after the whole procedure
+	parts := strings.SplitAfter(sc.SQL, "COMMIT;\n")
+	for k := 1; k <= len(parts); k++ {
+		pre := sc
+		pre.Name = sc.Name + ".pre"
+		pre.SQL = strings.Join(parts[:k], "")
+		if k < len(parts) || !strings.HasSuffix(sc.SQL, "COMMIT;\n") {
+			// fine: a prefix ending in COMMIT, or the whole text (auto-commit at the end)
+		}
+		if pre.SQL == "" {
+			continue
+		}
+		d2, rs2, _ := runScenario(r, pre, nil, true)
+		if rs2.Exit != 0 {
+			_ = os.RemoveAll(d2)
+			return 0, "INFRA", "prefix run failed: " + rs2.Stderr, ""
+		}
+		snap := sut.Snapshot(filepath.Join(d2, "repo"))
+		_ = os.RemoveAll(d2)
+		for n := range sc.Tables {
+			if c, ok := snap[n]; ok {
+				allowed[n][c] = true
+			}
+		}
+	}
+	var ids []string
+	seenEnc := 0
+	started := false
+	for _, p := range points {
+		if p.Point == "stmt.begin" {
+			started = true
+		}
+		if !started || p.Point == "signal.seen" || strings.HasPrefix(p.Point, "nolock.") {
+			continue
+		}
+		if p.Point == "encode.row" {
+			seenEnc++
+			if !(seenEnc <= 2 || seenEnc%61 == 0) {
+				continue
+			}
+		}
+		ids = append(ids, p.ID)
+	}
+	type outc struct{ sig, what, id string }
+	results := make([]outc, len(ids))
+	core.Parallel(len(ids), 8, func(i int) {
+		id := ids[i]
+		sub := sc
+		sub.Name = fmt.Sprintf("%s.%d", sc.Name, i)
+		d, rs, _ := runScenario(r, sub, []string{"VERIF_CRASH_AT=" + id}, true)
+		defer os.RemoveAll(d)
+		repo := filepath.Join(d, "repo")
+		if !rs.Signaled {
+			results[i] = outc{"INFRA", fmt.Sprintf("crash point %s was not reached (exit %d): %s", id, rs.Exit, rs.Stderr), id}
+			return
+		}
+		pt := id[:strings.Index(id, "@")]
+		results[i].id = id
+		now := sut.Snapshot(repo)
+		for n := range sc.Tables {
+			c, ok := now[n]
+			switch {
+			case !ok:
+				results[i] = outc{"crash:table-missing@" + pt, fmt.Sprintf("after a crash at %s table %s does not exist", id, n), id}
+				return
+			case !allowed[n][c]:
+				results[i] = outc{"crash:table-torn@" + pt, fmt.Sprintf("after a crash at %s table %s holds none of its committed contents (%d bytes)", id, n, len(c)), id}
+				return
+			}
+		}
+		removeControlFiles(repo)
+		var q []string
+		for n := range sc.Tables {
+			q = append(q, "SELECT COUNT(*) FROM `"+n+"`;", "INSERT INTO `"+n+"` SELECT * FROM `"+n+"` LIMIT 1;")
+		}
+		sort.Strings(q)
+		rr := sut.RunBin(sut.BinOpts{Csvq: r.Csvq, Dir: d, Args: []string{"--repository", repo, "--wait-timeout", "0.3", "--quiet", strings.Join(q, " ") + " COMMIT;"}, Timeout: 30 * time.Second})
+		if rr.Exit != 0 || rr.IsFatal() {
+			results[i] = outc{"crash:not-recoverable@" + pt, fmt.Sprintf("after a crash at %s and deletion of the control files the tables are not usable: exit %d %s", id, rr.Exit, rr.Stderr), id}
+		} else if l := sut.ControlFiles(repo); len(l) > 0 {
+			results[i] = outc{"crash:recovery-leftover", fmt.Sprintf("recovery run after crash at %s left %v", id, l), id}
+		}
+	})
+	for _, o := range results {
+		r.Distinct(sc.Name + "|" + o.id)
+		if o.sig != "" {
+			return len(ids), o.sig, o.what + "\n" + sc.SQL, o.id
+		}
+	}
+	return len(ids), "", "", ""
 }
